@@ -36,12 +36,20 @@ MANIFEST = {
             'polynomials B, A<>0 over any characteristic-0 field, any delay, any interpretation of exp with exp(0)=1 and any value of '
             'the undef factor, the formatted value equals (B/A) exp(-x delay) undef: from the proved Euclidean-division identity, monic '
             'scaling, gcd cancellation, verified root certificates (K Prod(x-z)/Prod(x-p)), verified partial-fraction certificates '
-            '(pf_check_sound), conjugate pairing, x->1/x reversal, and the continued-fraction chain; poles_are_roots / poles_full_degree '
-            'cover the reported poles and zeros.  The hand model is validated on each run by evaluating it inside Coq (vm_compute over '
-            'Q(i)) against what the real methods returned for generated rational functions in s, z, j omega, j 2 pi f.',
-    'note': 'Trusted: Coq kernel/vm_compute; tools/tr_ratfun.py (abstract interpreter over the method bodies) + statement templates in '
-            'checks/c11.py; harness exact evaluator tools/ratfun_exact.py; sympy roots/residues/cancel/simplify are oracles whose '
-            'answers are checked per case by the verified checkers roots_cert / pf_check (simplify variants: value oracle only).',
+            '(pf_check_sound), conjugate pairing (pair_conjugates_preserves_multiplicity / pair_step_preserves_product, translated from '
+            'lcapy/root.py), x->1/x reversal, and the continued-fraction chains of BOTH as_continued_fraction (leading terms) and '
+            'as_continued_fraction_inverse (trailing terms; cf_inverse_preserves); poles_are_roots / poles_full_degree cover reported '
+            'Gaussian-rational poles and zeros, irrational_roots_are_roots covers irrational ones (any degree) through the checked '
+            'identity A = lc Prod m_i^n_i over their minimal polynomials.  The hand model is validated on each run by evaluating it '
+            'inside Coq (vm_compute over Q(i)) against what the real methods returned for generated rational functions in s, z, '
+            'j omega, j 2 pi f (47 method variants incl. timeconst_terms, as_N_D(monic), coeffs/normcoeffs, as_monic_terms, '
+            'expand_response, poles/zeros/roots(pairs=True)).',
+    'note': 'Trusted: Coq kernel/vm_compute; tools/tr_ratfun.py (abstract interpreter over the method bodies, pair_conjugates branches) + '
+            'statement templates in checks/c11.py; harness exact evaluator tools/ratfun_exact.py; sympy roots/residues/cancel/simplify '
+            'are oracles whose answers are checked per case by the verified checkers roots_cert / pf_check / pairing_ok / minpoly_cert; '
+            'sympy.minimal_polynomial is trusted for "m(r)=0" of irrational roots (cross-checked at 60 digits); simplify variants, '
+            'timeconst_terms, as_sum/as_monic_terms/expand_response: value compared with the specification inside Coq, no structural '
+            'model; values of formats containing radicals: exact radical arithmetic oracle only.',
     'technique': 'Coq proof over abstract fields (polynomial theory PolyQ) + source-translated attachment table + in-Coq '
                  'correspondence evaluation over Gaussian rationals + exact value oracle',
 }
@@ -61,6 +69,8 @@ VALUE_METHODS = [
     ('partfrac_ec', 'partfrac', {'method': 'ec'}),
     ('recippartfrac', 'recippartfrac', {}), ('recippartfrac_cc', 'recippartfrac', {'combine_conjugates': True}),
     ('cf', 'as_continued_fraction', {}),
+    ('cfi', 'as_continued_fraction_inverse', {}), ('timeconst_terms', 'timeconst_terms', {}),
+    ('as_monic_terms', 'as_monic_terms', {}), ('as_nonmonic_terms', 'as_nonmonic_terms', {}), ('expand_response', 'expand_response', {}), ('as_sum', 'as_sum', {}),
     ('ratden', 'rationalize_denominator', {}), ('mtb', 'multiply_top_and_bottom', {}), ('dtb', 'divide_top_and_bottom', {}),
     ('simplify', 'simplify', {}), ('simplify_terms', 'simplify_terms', {}), ('simplify_factors', 'simplify_factors', {}),
 ]
@@ -69,18 +79,20 @@ DATA_METHODS = [
     ('as_QRPO', 'as_QRPO', {}), ('as_QRPO_ec', 'as_QRPO', {'method': 'ec'}), ('residues', 'residues', {}),
     ('as_QRF', 'as_QRF', {}), ('as_QRF_cc', 'as_QRF', {'combine_conjugates': True}),
     ('recip_QRPO', 'recip_QRPO', {}), ('cf_coeffs', 'cf_coeffs', {}),
+    ('cfi_coeffs', 'cfi_coeffs', {}), ('as_N_D_monic', 'as_N_D_monic', {}), ('coeffs', 'coeffs', {}),
     ('poles_pairs', 'poles_pairs', {}), ('zeros_pairs', 'zeros_pairs', {}), ('N_roots_pairs', 'N_roots_pairs', {}), ('D_roots_pairs', 'D_roots_pairs', {}),
 ]
 # execution order: timeout-prone methods last (an interrupted method taints the rest of its case)
 _LATE = ('simplify', 'simplify_terms', 'simplify_factors', 'ratden')
 ALL_METHODS = ([m for m in VALUE_METHODS if m[0] not in _LATE] + DATA_METHODS + [m for m in VALUE_METHODS if m[0] in _LATE])
 # variants that repeat an expensive computation; quick tier runs them on every third case only
-HEAVY_VARIANTS = ('partfrac_ec', 'as_QRPO_ec', 'as_QRF', 'mixedfrac', 'factored_pairs', 'simplify_terms', 'simplify_factors')
+HEAVY_VARIANTS = ('as_monic_terms', 'as_nonmonic_terms', 'as_sum', 'partfrac_ec', 'as_QRPO_ec', 'as_QRF', 'mixedfrac', 'factored_pairs', 'simplify_terms', 'simplify_factors')
 # which public method a key belongs to (known-finding keys use the public name)
 PUBLIC = {'canonical_fc': 'canonical', 'ZPK_cc': 'ZPK', 'factored_pairs': 'factored', 'partfrac_cc': 'partfrac', 'partfrac_ec': 'partfrac',
           'recippartfrac_cc': 'recippartfrac', 'cf': 'as_continued_fraction', 'ratden': 'rationalize_denominator',
           'mtb': 'multiply_top_and_bottom', 'dtb': 'divide_top_and_bottom', 'ND': 'N/D', 'as_QRPO_ec': 'as_QRPO',
-          'as_QRF_cc': 'as_QRF', 'recip_QRPO': 'recippartfrac', 'cf_coeffs': 'continued_fraction_coeffs',
+          'as_QRF_cc': 'as_QRF', 'recip_QRPO': 'recippartfrac', 'cf_coeffs': 'continued_fraction_coeffs', 'cfi': 'as_continued_fraction_inverse', 'cfi_coeffs': 'continued_fraction_inverse_coeffs',
+          'as_N_D_monic': 'as_N_D(monic_denominator=True)', 'coeffs': 'coeffs/normcoeffs',
           'poles_pairs': 'poles(pairs=True)', 'zeros_pairs': 'zeros(pairs=True)', 'N_roots_pairs': 'roots(pairs=True)', 'D_roots_pairs': 'roots(pairs=True)'}
 
 
@@ -227,6 +239,12 @@ class CaseBuilder:
                 if frac_sqrt(abs(disc)) is None:
                     break
             pspecs = pspecs[:1] + [(('poly', [c0, c1, Fraction(1)]), 1)]
+        if opts.get('cubic'):
+            cub = (('poly', [Fraction(rng.choice([1, -1, 2])), Fraction(rng.choice([1, 2, -3])), Fraction(0), Fraction(1)]), 1)   # x^3 + p x + q
+            if opts['cubic'] == 'p':
+                pspecs = pspecs[:1] + [cub]
+            else:
+                zspecs = zspecs[:1] + [cub]
         if opts.get('genpoly'):
             zspecs = [(('poly', [self.rand_frac(-3, 3, (1, 2), nz=True) for _ in range(rng.randint(2, 4))]), 1)]
         # merge duplicate specs (same factor twice -> raise the power)
@@ -421,6 +439,9 @@ def gen_cases(rng, tier):
     plan.append(('s', dict(symbolic=False, delay='num', undef=False, expanded=True, nz=1, np=1, surd=True, complex=False)))
     plan.append(('z', dict(symbolic=False, delay='none', undef=True, expanded=False, nz=2, np=1, surd=True, complex=False)))
     plan.append(('s', dict(symbolic=False, delay='none', undef=False, expanded=False, nz=0, np=0, gain=Fraction(5, 3))))
+    # irrational roots of degree 3 (Cardano): certificates by minimal polynomials
+    plan.append(('s', dict(symbolic=False, delay='none', undef=False, expanded=False, nz=1, np=1, complex=False, cubic='p')))
+    plan.append(('z', dict(symbolic=False, delay='none', undef=False, expanded=True, nz=1, np=1, complex=False, cubic='z')))
     # conjugate roots with unequal multiplicities, both orientations, in poles and in zeros
     for dom, where, k1, k2, ex in (('s', 'p', 2, 1, False), ('s', 'p', 1, 2, False), ('s', 'z', 3, 1, False), ('s', 'z', 1, 2, True),
                                    ('z', 'p', 1, 3, False), ('z', 'z', 2, 1, False), ('omega', 'p', 1, 2, False), ('s', 'p', 2, 3, True)):
@@ -534,6 +555,43 @@ def oracle_case(c, r):
                 if d.is_zero() or n / d != orig[k]:
                     bad.append((key, k, 'N/D'))
                     break
+        if key == 'as_N_D_monic':
+            for k in range(len(pts)):
+                n, d_ = G.des(m['N'][k]), G.des(m['D'][k])
+                if d_.is_zero() or n / d_ != orig[k]:
+                    bad.append((key, k, 'N/D'))
+                    break
+            dp = trim([G.des(x) for x in m['Dpoly']])
+            if dp and dp[-1] != G(1):
+                bad.append((key, 0, 'denominator not monic'))
+        if key == 'coeffs':
+            for nm_ in ('N', 'D'):
+                cs = [G.des(x) for x in reversed(m[nm_ + 'c'])]
+                ns = [G.des(x) for x in reversed(m[nm_ + 'n'])]
+                for k, x in enumerate(pts):
+                    if peval(cs, x) != G.des(m[nm_][k]) or G.des(m[nm_ + 'c'][0]) * peval(ns, x) != G.des(m[nm_][k]):
+                        bad.append((key, k, 'coeffs/normcoeffs of %s do not reconstruct it' % nm_))
+                        break
+        if key in ('poles', 'zeros') and 'minpolys' in m:
+            # exact, independent: lc * prod m^n == polynomial (Fractions), all conjugates reported
+            poly = trim(A if key == 'poles' else B)
+            if any(x.im != 0 for x in poly):
+                continue
+            okm = all(n_ > 0 and cnt == len(cs) - 1 for cs, n_, cnt in m['minpolys'])
+            if okm:
+                prod = [poly[-1]]
+                for cs, n_, cnt in m['minpolys']:
+                    mc = [G.des(x) for x in cs]
+                    for _ in range(n_):
+                        nw = [G(0)] * (len(prod) + len(mc) - 1)
+                        for i_, a_ in enumerate(prod):
+                            for j_, b_ in enumerate(mc):
+                                nw[i_ + j_] = nw[i_ + j_] + a_ * b_
+                        prod = nw
+                okm = trim(prod) == poly
+            if not okm:
+                bad.append((key, 0, 'reported irrational roots (by minimal polynomial) do not account for the polynomial'))
+            continue
         if key in ('poles', 'zeros'):
             ok, full = oracle_roots(A if key == 'poles' else B, [(G.des(p), n) for p, n in m['roots']])
             if not ok:
@@ -640,6 +698,10 @@ def qi(x):
 
 def plist(cs):
     return '[' + '; '.join(qi(c) for c in cs) + ']'
+
+
+def tplist(cs):
+    return '(%s : list QcIF)' % plist(cs)
 
 
 def rlist(roots):
@@ -866,7 +928,7 @@ def case_defs(c, r, pre, avail=None):
                     checks.append((key, k, 'veq (fmt_ZPK_cc E3 (att_ZPK_cc QcIF) %szp %szs1 %spp %sps1 %s %s %s %su%d %sx%d) %s' % (
                         pre, pre, pre, pre, B, A, d, pre, k, pre, k, qi(M[key]['vals'][k]))))
     for key, src in (('poles_pairs', 'poles'), ('zeros_pairs', 'zeros'), ('N_roots_pairs', 'zeros'), ('D_roots_pairs', 'poles')):
-        if ok(key) and (ok(src) or 'roots' in M[key]):
+        if ok(key) and ((ok(src) and 'roots' in M[src]) or 'roots' in M[key]):
             m_ = M[key]
             if 'roots' in m_:
                 orig_l = rlist(m_['roots'])
@@ -877,6 +939,19 @@ def case_defs(c, r, pre, avail=None):
             # list form: every entry once
             checks.append((key, 1, 'pairing_ok (K:=QcIF) %s %s %s' % (orig_l, pairlist([p_ + [1] for p_ in m_['pairs_list']]),
                                                                    rlist([[p_, 1] for p_ in m_['singles_list']]))))
+    for key, poly in (('poles', A), ('zeros', B)):
+        if ok(key) and 'minpolys' in M[key]:
+            mp = M[key]['minpolys']
+            if any(G.des(x).im != 0 for x in dec['A' if key == 'poles' else 'B']):
+                continue        # minimal polynomials over Q only certify polynomials with rational coefficients
+            # all conjugates of every group reported, with one multiplicity (else: term false)
+            shape = all(n_ > 0 and cnt == len(cs) - 1 for cs, n_, cnt in mp)
+            if shape:
+                lst = '[' + '; '.join('(%s, %d%%nat)' % (tplist(cs), n_) for cs, n_, cnt in mp) + ']'
+                checks.append((key, 0, 'chk_minpoly %s %s' % (poly, lst)))
+            else:
+                checks.append((key, 0, 'false'))
+            continue
     for key, poly in (('poles', A), ('zeros', B)):
         if ok(key):
             # all roots of the generated polynomial are Gaussian rationals by construction: symbolic root
@@ -924,6 +999,26 @@ def case_defs(c, r, pre, avail=None):
         m = M['ratden']
         for k in range(len(m['vals'])):
             checks.append(('ratden', k, 'veq (cidiv (cimul %s (ciconj %s)) (ciofq (cinorm %s))) %s' % (qi(m['N'][k]), qi(m['D'][k]), qi(m['D'][k]), qi(m['vals'][k]))))
+    if ok('cfi') and ok('cfi_coeffs'):
+        for k in range(len(pts)):
+            checks.append(('cfi', k, 'chk_cfi %s %s %sx%d %s %s' % (B, A, pre, k, plist([cf[k] for cf in M['cfi_coeffs']['coeffs']]), qi(M['cfi']['vals'][k]))))
+    for key in ('timeconst_terms', 'as_monic_terms', 'as_nonmonic_terms', 'expand_response', 'as_sum'):
+        # no structural model: the value must be the specified one (sem), evaluated inside Coq
+        if ok(key):
+            for k in range(len(pts)):
+                checks.append((key, k, 'veq (sem E3 %s %s %s %su%d %sx%d) %s' % (B, A, d, pre, k, pre, k, qi(M[key]['vals'][k]))))
+    if ok('as_N_D_monic'):
+        m_ = M['as_N_D_monic']
+        for k in range(len(pts)):
+            checks.append(('as_N_D_monic', k, 'nd_ok E3 %s %s %s %su%d %sx%d %s %s && veq (plc (K:=QcIF) %s) (qi 1 1 0 1) && veq (peval %s %sx%d) %s' % (
+                B, A, d, pre, k, pre, k, qi(m_['N'][k]), qi(m_['D'][k]), tplist(m_['Dpoly']), tplist(m_['Dpoly']), pre, k, qi(m_['D'][k]))))
+    if ok('coeffs'):
+        m_ = M['coeffs']
+        for nm_ in ('N', 'D'):
+            cs, ns = list(reversed(m_[nm_ + 'c'])), list(reversed(m_[nm_ + 'n']))
+            for k in range(len(pts)):
+                checks.append(('coeffs', k, 'veq (peval %s %sx%d) %s && veq (fmul (f:=QcIF) %s (peval %s %sx%d)) %s && veq (plc (K:=QcIF) %s) (qi 1 1 0 1)' % (
+                    tplist(cs), pre, k, qi(m_[nm_][k]), qi(m_[nm_ + 'c'][0]), tplist(ns), pre, k, qi(m_[nm_][k]), tplist(ns))))
     if ok('cf') and ok('cf_coeffs'):
         for k in range(len(pts)):
             checks.append(('cf', k, 'chk_cf %s %s %sx%d %s %s' % (B, A, pre, k, plist([cf[k] for cf in M['cf_coeffs']['coeffs']]), qi(M['cf']['vals'][k]))))
@@ -1090,6 +1185,9 @@ def run(tier='quick', replay=None):
                 res.count('undef')
             if t.get('symbolic'):
                 res.count('symbolic')
+            for k_ in ('poles', 'zeros'):
+                if 'minpolys' in r['m'].get(k_, {}):
+                    res.count('roots_certified_by_minimal_polynomial:' + k_)
             if t.get('surd'):
                 res.count('irrational_poles')
             if r.get('surd_evals'):
@@ -1193,6 +1291,10 @@ def run(tier='quick', replay=None):
                                'theorem': name, 'file': f, 'message': msg, 'found_input': False})
         seen = set()
         for dct in res.disagreements:
+            consumers = {'pairing': ('ZPK_cc', 'factored_pairs', 'poles_pairs', 'zeros_pairs', 'N_roots_pairs', 'D_roots_pairs'),
+                         'as_ZPK_cert': ('ZPK', 'factored', 'ZPK_cc', 'factored_pairs', 'poles', 'zeros')}.get(dct['method'], ())
+            if any((dct['case_index'], m_) in oracle_bad for m_ in consumers):
+                continue            # internal certificate of a method whose value change is reported with its input
             if (dct['case_index'], dct['method']) in oracle_bad or dct['method'] in seen:
                 continue            # the real code changes the value on this very input: reported above with the input
             seen.add(dct['method'])
